@@ -25,6 +25,9 @@ def run(ctx):
         fname = f"c07_{i}.csv"
         pr = gen.gen_prog(rng, fname, control=True, errors=(rng.random() < 0.2), collects=True)
         progs.append((pr, rows, fname))
+    # the witness of the open finding collect-unmatched-limit-raises, in every run
+    progs.append(({"text": '~unmatched-mode: keep :~ $c07_w.csv[0+2+4][ yes() -> collect("id", "b") ]', "scan": "0+2+4", "comment": "", "comps": []},
+                  [["id", "a", "b"], [], ["r2", "1", "x"]], "c07_w.csv"))
     jobs = []
     for pr, rows, fname in progs:
         for m in (0, 1, 2):
